@@ -112,8 +112,22 @@ def r1(ctx, facts, model, alive):
                 edges = alive.guard_edges(b, x)
                 removed = {e["false_edge"] for e in edges}
                 ok = bool(edges) and ebb not in b.reachable(0, removed=removed)
-                ctx.ob("C02-R1", "%s Err only for a dead handle" % b.path, ok, b.loc(line=b.blocks[ebb]["stmts"][ei].get("line")),
-                       "" if ok else "the wrong-generation error can be produced for a live handle")
+                why_ = "" if ok else "the wrong-generation error can be produced for a live handle"
+                if not ok:
+                    # which handle is the error about?  If it is a value this body never tests for aliveness itself (e.g. `delete[done]`
+                    # re-fetched after a `position()` that did the testing), error and test are related only through the VALUE of an index:
+                    # not decided, rather than called a violation.  An error about the tested handle outside its false edge stays a violation.
+                    eo = b.operand_origin(erv["ops"][0], at=(ebb, ei)) if erv.get("ops") else None
+                    about = set()
+                    for d in (b.deps(eo) if eo else []):
+                        if d[0] == "call":
+                            for k_, a_ in enumerate(b.term(d[1])["args"]):
+                                if isinstance(a_, dict) and strip_ref(a_.get("ty", "")) == "world::entity::Entity":
+                                    about.add(b.arg_origin(d[1], k_))
+                    if about and x not in about and not any(alive.guard_edges(b, y) for y in about):
+                        ok = "undetermined"
+                        why_ = "the error is about %r, which this body re-fetches by position and never tests itself; whether that is the rejected element is value-dependent" % (sorted(about)[:1],)
+                ctx.ob("C02-R1", "%s Err only for a dead handle" % b.path, ok, b.loc(line=b.blocks[ebb]["stmts"][ei].get("line")), why_)
     ctx.floor("C02-R1", "guarded mutation sites on the kill paths", nsites, 4)
     # EntitiesRes::delete forwards to a handle body only
     dl = facts.body("world::entity::EntitiesRes::delete")
